@@ -204,7 +204,7 @@ def bgp(min_size=1, pool=None):
         t = draw(st.sampled_from(pool))
         out = []
         # mostly distinct variables within one triple pattern (a repeated variable only matches triples with equal terms there)
-        names = draw(st.one_of(st.none(), st.permutations(VARS), st.permutations(VARS), st.permutations(VARS)))
+        names = draw(st.one_of(st.none(), st.none(), st.permutations(VARS), st.permutations(VARS), st.permutations(VARS)))
         for pos, x in enumerate(t):
             keep = x[0] != "b" and draw(st.integers(0, 2 if pos != 1 else 1)) == 0
             out.append(x if keep else ["v", names[pos] if names else draw(st.sampled_from(VARS))])
